@@ -40,3 +40,71 @@ let outcome_sexp (f : 'a -> t) (o : 'a outcome) : t =
   | Ok a -> L [A "ok"; f a]
   | Raise e -> L [A "raise"; exn_sexp e]
   | OutOfFuel -> L [A "outoffuel"]
+
+(* ---- PyVal / Doc ---- *)
+let pos_of_z = function Zpos p -> p | _ -> failwith "expected positive denominator"
+
+let pyval_of_sexp (x : t) : pyval =
+  match x with
+  | A "none" -> PNone
+  | L [A "b"; b] -> PBool (bool_of_sym b)
+  | L [A "i"; n] -> PInt (z_atom n)
+  | L [A "f"; n; d; r] -> PFloat ({ qnum = z_atom n; qden = pos_of_z (z_atom d) }, str_atom r)
+  | L [A "s"; v] -> PStr (str_atom v)
+  | L [A "o"; v] -> POther (str_atom v)
+  | _ -> failwith ("bad pyval " ^ to_string x)
+
+let sexp_of_pyval (v : pyval) : t =
+  match v with
+  | PNone -> A "none"
+  | PBool b -> L [A "b"; bs b]
+  | PInt z -> L [A "i"; zs z]
+  | PFloat (q, r) -> L [A "f"; zs q.qnum; zs (Zpos q.qden); s r]
+  | PStr v -> L [A "s"; s v]
+  | POther v -> L [A "o"; s v]
+
+let rec n_of_int (i : int) : n = if i = 0 then N0 else Npos (pos_of_int i)
+let rec int_of_pos = function XH -> 1 | XO p -> 2 * int_of_pos p | XI p -> 2 * int_of_pos p + 1
+let int_of_n = function N0 -> 0 | Npos p -> int_of_pos p
+
+let opt_str_of_sexp = function A "none" -> None | x -> Some (str_atom x)
+let sexp_of_opt_str = function None -> A "none" | Some v -> s v
+
+let info_of (o : t) (a : t) (h : t) (tg : t) : info =
+  { oid = n_of_int (int_atom o); anchor = opt_str_of_sexp a; has_anchor_attr = bool_of_sym h;
+    tag = opt_str_of_sexp tg }
+
+let rec node_of_sexp (x : t) : node =
+  match x with
+  | L [A "L"; o; a; h; tg; v] -> NLeaf (info_of o a h tg, pyval_of_sexp v)
+  | L [A "M"; o; a; h; tg; L kvs] ->
+    NMap (info_of o a h tg,
+          List.map (function L [k; v] -> (node_of_sexp k, node_of_sexp v) | y -> failwith ("bad pair " ^ to_string y)) kvs)
+  | L [A "S"; o; a; h; tg; L els] -> NSeq (info_of o a h tg, List.map node_of_sexp els)
+  | L [A "T"; o; a; h; tg; L els] -> NSet (info_of o a h tg, List.map node_of_sexp els)
+  | _ -> failwith ("bad node " ^ to_string x)
+
+let info_items (i : info) : t list =
+  [A ("i" ^ string_of_int (int_of_n i.oid)); sexp_of_opt_str i.anchor; bs i.has_anchor_attr; sexp_of_opt_str i.tag]
+
+let rec sexp_of_node (n : node) : t =
+  match n with
+  | NLeaf (i, v) -> L (A "L" :: info_items i @ [sexp_of_pyval v])
+  | NMap (i, kvs) -> L (A "M" :: info_items i @ [L (List.map (fun (k, v) -> L [sexp_of_node k; sexp_of_node v]) kvs)])
+  | NSeq (i, els) -> L (A "S" :: info_items i @ [L (List.map sexp_of_node els)])
+  | NSet (i, els) -> L (A "T" :: info_items i @ [L (List.map sexp_of_node els)])
+
+let sexp_of_ref (r : ref) : t =
+  match r with
+  | RKey k -> L [A "K"; sexp_of_pyval k]
+  | RIdx i -> L [A "I"; A ("i" ^ string_of_int (int_of_nat i))]
+  | RMember v -> L [A "E"; sexp_of_pyval v]
+
+let ref_of_sexp (x : t) : ref =
+  match x with
+  | L [A "K"; k] -> RKey (pyval_of_sexp k)
+  | L [A "I"; i] -> RIdx (nat_of_int (int_atom i))
+  | L [A "E"; v] -> RMember (pyval_of_sexp v)
+  | _ -> failwith ("bad ref " ^ to_string x)
+
+let sexp_of_option f = function None -> A "none" | Some v -> L [A "some"; f v]
